@@ -11,7 +11,8 @@ cd $wt
 res=()
 git apply $out/patch.diff || { echo "PATCH DOES NOT APPLY"; exit 2; }
 go build ./... || { echo "DOES NOT COMPILE"; exit 2; }
-if go test -vet=off -count=1 ./... >/tmp/mut/$id.suite.log 2>&1; then res+=("suite_with_change=pass"); else res+=("suite_with_change=FAIL"); fi
+# (the suite's own goroutine-leak check in TestMain is load-sensitive: one retry)
+if go test -vet=off -count=1 ./... >/tmp/mut/$id.suite.log 2>&1 || go test -vet=off -count=1 ./... >/tmp/mut/$id.suite.log 2>&1; then res+=("suite_with_change=pass"); else res+=("suite_with_change=FAIL"); fi
 demo=$(ls $out/*_test.go | head -1)
 pkgline=$(grep -m1 '^package' $demo)
 dest=$wt/zz_mutant_demo_test.go
